@@ -97,37 +97,6 @@ theorem C04_mono_binop_ok (D : Dispatch) (op : Op) (a b : Operand) (k : Kind) (n
 theorem C04_mono_negate (D : Dispatch) (a : Operand) : ∀ _m₁ _m₂ : Mode, negate D a = negate D a :=
   fun _ _ => rfl
 
-/-- incrementByteCode as a function of the strict flag (definitionally C03's `increment`) -/
-def incrCore (D : Dispatch) (strict : Bool) (kx : Kind) (nx : Int) (c : Operand) : Res :=
-  if strict && !c.isConst && (Operand.var kx nx).kindOrd != c.kindOrd then .err .typeMismatch
-  else
-    match normalize (.var kx nx) c strict with
-    | .err e => .err e
-    | .floats => .float
-    | .ints k x y => if D.incr.contains k then .ok k (wrap k (x + y)) else .err .invalidType
-
-theorem increment_core (D : Dispatch) (m : Mode) (kx : Kind) (nx : Int) (c : Operand) :
-    increment D m kx nx c = incrCore D m.isStrict kx nx c := rfl
-
-/-- **fused Increment.** -/
-theorem C04_mono_increment (D : Dispatch) (kx : Kind) (nx : Int) (c : Operand) (r : Res)
-    (h : increment D .strict kx nx c = r) (hok : resErr r = false) : increment D .relaxed kx nx c = r := by
-  subst h
-  rw [increment_core] at hok ⊢
-  rw [increment_core]
-  change resErr (incrCore D true kx nx c) = false at hok
-  change incrCore D false kx nx c = incrCore D true kx nx c
-  simp only [incrCore] at hok ⊢
-  by_cases hg : (true && !c.isConst && (Operand.var kx nx).kindOrd != c.kindOrd) = true
-  · rw [if_pos hg] at hok; simp [resErr] at hok
-  · have hg' : ¬ ((false && !c.isConst && (Operand.var kx nx).kindOrd != c.kindOrd) = true) := by simp
-    rw [if_neg hg] at hok
-    rw [if_neg hg', if_neg hg]
-    cases hn : normalize (.var kx nx) c true with
-    | err e => rw [hn] at hok; simp [resErr] at hok
-    | floats => rw [normalize_mono _ _ _ hn (by simp)]
-    | ints k x y => rw [normalize_mono _ _ _ hn (by simp)]
-
 /-- **assignment boundary, computed value** (Context.checkTypeCore, non-constant) -/
 theorem C04_mono_store (kx : Kind) (v r : Res) (h : store .strict kx v = r) (hok : resErr r = false) :
     store .relaxed kx v = r := by
@@ -140,6 +109,40 @@ theorem C04_mono_store (kx : Kind) (v r : Res) (h : store .strict kx v = r) (hok
     · simp [hk, resErr] at hok
   | float => rfl
   | err e => rfl
+
+/-- incrementByteCode as a function of the mode (definitionally C03's `increment`) -/
+def incrCore (D : Dispatch) (m : Mode) (kx : Kind) (nx : Int) (c : Operand) : Res :=
+  if m.isStrict && !c.isConst && (Operand.var kx nx).kindOrd != c.kindOrd then .err .typeMismatch
+  else
+    match normalize (.var kx nx) c m.isStrict with
+    | .err e => .err e
+    | .floats => .float
+    | .ints k x y => if D.incr.contains k then store m kx (.ok k (wrap k (x + y))) else .err .invalidType
+
+theorem increment_core (D : Dispatch) (m : Mode) (kx : Kind) (nx : Int) (c : Operand) :
+    increment D m kx nx c = incrCore D m kx nx c := rfl
+
+/-- **fused Increment.** -/
+theorem C04_mono_increment (D : Dispatch) (kx : Kind) (nx : Int) (c : Operand) (r : Res)
+    (h : increment D .strict kx nx c = r) (hok : resErr r = false) : increment D .relaxed kx nx c = r := by
+  subst h
+  rw [increment_core] at hok ⊢
+  rw [increment_core]
+  simp only [incrCore, Mode.isStrict, Bool.true_and, Bool.false_and, Bool.false_eq_true, if_false] at hok ⊢
+  cases hg : (!c.isConst && (Operand.var kx nx).kindOrd != c.kindOrd)
+  · simp only [hg, Bool.false_eq_true, if_false] at hok ⊢
+    cases hn : normalize (.var kx nx) c true with
+    | err e => rw [hn] at hok; simp [resErr] at hok
+    | floats => rw [normalize_mono _ _ _ hn (by simp)]
+    | ints k x y =>
+      rw [hn] at hok
+      rw [normalize_mono _ _ _ hn (by simp)]
+      by_cases hc : D.incr.contains k = true
+      · simp only [hc, if_true] at hok ⊢
+        exact C04_mono_store kx _ _ rfl hok
+      · have hm : ¬ k ∈ D.incr := by simpa using hc
+        simp [hc, hm]
+  · simp [hg, resErr] at hok
 
 /-- **assignment boundary, constants included** -/
 theorem C04_mono_storeOp (kx : Kind) (o : Operand) (r : Res) (h : storeOp .strict kx o = r)
